@@ -155,6 +155,15 @@ class C15(Check):
                                 add(t, d, text, "length-limit")
                         add("u", "with_suffix", text + " xmr", "length-limit")
                         add("s", "with_suffix", text + " piconero", "length-limit")
+        # lengths at which a narrow length counter wraps (a u8 at 256 + k, a u16 at 65536 + k): well-formed digits, far beyond
+        # the 50-character limit - all refused
+        for total in (255, 256, 257, 258, 260, 300, 305, 306, 307, 512, 513, 562, 65535, 65536, 65537, 65540, 65586):
+            for body in ("5", "1.5", "0"):
+                text = "0" * (total - len(body)) + body
+                for d in ("xmr", "piconero", "nanonero"):
+                    for t in "us":
+                        add(t, d, text, "length-wraps-a-narrow-counter")
+                add("s", "with_suffix", text[4:] + " xmr", "length-wraps-a-narrow-counter")
         # non-ASCII
         for text in ["１", "1٫5", "µ", "1.5€", "٣", "١٢", "1 5", "−1", "−", "-١",
                      "1€", "€" * 16 + "11", "€" * 17, "é" * 25, "é" * 26, "1" * 49 + "é", "1" * 48 + "é",
